@@ -3,7 +3,9 @@
 EXTENDS AxialExpansion
 Bound == TLCGet("level") <= MaxLevel
 \* one line per distinct state: the design, the calls that lead to it, the specification's observation of it
-EmitState == PrintT(ToJson([A |-> A, ex |-> pre = <<>> , path |-> path, obs |-> Obs, lit |-> Lit]))
+EmitState == PrintT(ToJson([A |-> A, path |-> path, obs |-> Obs, lit |-> Lit]))
+\* the catalogue, printed once: the adapter builds real components / blocks from it
+ASSUME PrintT(ToJson([CT |-> CT, BT |-> BT]))
 
 D(types, hs, hd) == [types |-> types, hs |-> hs, hd |-> hd]
 \* growth sets (closed under inverse)
@@ -26,13 +28,18 @@ DesignsThorough == DesignsQuick \cup {
     D(<<"fuel", "aclp", "plenum">>, <<5, 3, 3>>, 3) }
 DesignsEmit == {
     D(<<"fuel", "plenum">>, <<5, 4>>, 3),
-    D(<<"shield", "fuel">>, <<4, 5>>, 3),
     D(<<"fuelb", "bigfuel">>, <<5, 5>>, 2) }
 DesignsDeep == { D(<<"fuel", "plenum">>, <<4, 4>>, 16), D(<<"shield", "fuel", "plenum">>, <<4, 2, 4>>, 8) }
 \* static cases: target-component choice and link detection over many block designs (one call each)
 DesignsCases == {D(<<t1, t2>>, <<4, 4>>, 4) : t1, t2 \in DOMAIN BT} \cup {D(<<t>>, <<4>>, 4) : t \in DOMAIN BT}
+DesignsCasesQuick == {D(<<t1, t2>>, <<4, 4>>, 4) : t1 \in {"fuel", "shield", "liner"}, t2 \in DOMAIN BT} \cup {D(<<t>>, <<4>>, 4) : t \in DOMAIN BT}
 TriplesQuick == {<<0, 1, 2>>, <<2, 0, 1>>}
 TriplesThorough == {<<0, 1, 2>>, <<2, 0, 1>>, <<1, 1, 0>>, <<2, 1, 0>>}
 TriplesEmit == {<<0, 1, 2>>}
 NoTriples == {}
+FromBoth == BOOLEAN
+FromRef == {FALSE}
+GOne == {<<1, 1>>}
+DesignsLit == { D(<<"fuel", "plenum">>, <<5, 4>>, 3), D(<<"fuelb", "bigfuel">>, <<5, 5>>, 2) }
+DesignsEmitThorough == DesignsEmit \cup { D(<<"shield", "fuel">>, <<4, 5>>, 3), D(<<"shield", "fuel", "plenum">>, <<3, 5, 4>>, 4), D(<<"fuel", "afuel">>, <<5, 3>>, 4) }
 =====================================================================================================
